@@ -34,6 +34,17 @@ type Gen struct {
 	Bs    []string
 	W     Weights
 	OIdx  int
+	// FaultP: per cent of requests sent with a backend failure injected at a random call index
+	FaultP int
+}
+
+var faultKinds = []string{"generic", "generic", "generic", "notfound", "tokennotfound", "userfound"}
+
+func (g *Gen) fault() *world.Fault {
+	if g.FaultP <= 0 || g.R.Intn(100) >= g.FaultP {
+		return nil
+	}
+	return &world.Fault{At: g.R.Intn(7), Kind: faultKinds[g.R.Intn(len(faultKinds))]}
 }
 
 // Weights of op kinds (a stream biases these).
@@ -308,14 +319,14 @@ func (g *Gen) Step() {
 			args.Extra = map[string]string{"name": "X", "confirmed": "true", "password": "zzz"}
 		}
 		existed := m.W.Store.Users[args.PID] != nil
-		r = m.HTTP(b, "register", args, nil)
+		r = m.HTTP(b, "register", args, g.fault())
 		if !existed && m.W.Store.Users[a.PID] != nil && args.PID == a.PID {
 			a.Exists = true
 			a.PW = args.PW
 		}
 		g.harvest(a, r)
 	case "confirm":
-		r = m.HTTP(b, "confirm", Args{Token: g.tokenFor(a, func(x *Acct) []string { return x.Confirm })}, nil)
+		r = m.HTTP(b, "confirm", Args{Token: g.tokenFor(a, func(x *Acct) []string { return x.Confirm })}, g.fault())
 		g.harvest(a, r)
 	case "login", "otplogin":
 		args := Args{PID: a.PID, RM: g.R.Intn(3) == 0}
@@ -353,21 +364,21 @@ func (g *Gen) Step() {
 		if g.R.Intn(4) == 0 {
 			args.Redir = pick(g.R, []string{"/home", "/a/b?x=1", "/"})
 		}
-		r = m.HTTP(b, kind, args, nil)
+		r = m.HTTP(b, kind, args, g.fault())
 		g.harvest(a, r)
 		if kind == "otplogin" {
 			// a consumed otp stays in the harness pool on purpose (replay attempts)
 		}
 	case "otpadd", "otpclear":
 		o := g.owner(b)
-		r = m.HTTP(b, kind, Args{}, nil)
+		r = m.HTTP(b, kind, Args{}, g.fault())
 		g.harvest(o, r)
 	case "recstart":
 		args := Args{PID: a.PID}
 		if g.R.Intn(8) == 0 {
 			args.PID = "ghost@nowhere.com"
 		}
-		r = m.HTTP(b, "recstart", args, nil)
+		r = m.HTTP(b, "recstart", args, g.fault())
 		g.harvest(a, r)
 	case "recend":
 		pw := pick(g.R, goodPWs)
@@ -380,7 +391,7 @@ func (g *Gen) Step() {
 		for pid, u := range m.W.Store.Users {
 			before[pid] = u.Password
 		}
-		r = m.HTTP(b, "recend", args, nil)
+		r = m.HTTP(b, "recend", args, g.fault())
 		for _, acc := range g.Accts {
 			if u := m.W.Store.Users[acc.PID]; u != nil && u.Password != before[acc.PID] {
 				acc.OldPWs = append(acc.OldPWs, acc.PW)
@@ -393,7 +404,7 @@ func (g *Gen) Step() {
 		if g.R.Intn(6) == 0 {
 			args.Method = pick(g.R, []string{"GET", "POST", "DELETE"})
 		}
-		r = m.HTTP(b, "logout", args, nil)
+		r = m.HTTP(b, "logout", args, g.fault())
 	case "ostart":
 		args := Args{Prov: pick(g.R, []string{"stub", "other"}), RM: g.R.Intn(3) == 0}
 		if !args.RM && g.R.Intn(3) == 0 {
@@ -402,7 +413,7 @@ func (g *Gen) Step() {
 		if g.R.Intn(3) == 0 {
 			args.Redir = "/after-oauth"
 		}
-		r = m.HTTP(b, "ostart", args, nil)
+		r = m.HTTP(b, "ostart", args, g.fault())
 	case "oend":
 		prov := pick(g.R, []string{"stub", "other"})
 		g.OIdx++
@@ -435,11 +446,11 @@ func (g *Gen) Step() {
 		if g.R.Intn(8) == 0 {
 			args.OErr = "access_denied"
 		}
-		r = m.HTTP(b, "oend", args, nil)
+		r = m.HTTP(b, "oend", args, g.fault())
 		g.harvest(nil, r)
 	case "totpgetsetup", "totpsetup", "smsgetsetup", "regen":
 		o := g.owner(b)
-		r = m.HTTP(b, kind, Args{}, nil)
+		r = m.HTTP(b, kind, Args{}, g.fault())
 		g.harvest(o, r)
 	case "totpconfirm":
 		o := g.owner(b)
@@ -449,7 +460,7 @@ func (g *Gen) Step() {
 		} else {
 			args.Code = g.codeFor(a, b)
 		}
-		r = m.HTTP(b, "totpconfirm", args, nil)
+		r = m.HTTP(b, "totpconfirm", args, g.fault())
 		g.harvest(o, r)
 	case "totpremove", "totpvalidate":
 		o := g.owner(b)
@@ -473,14 +484,14 @@ func (g *Gen) Step() {
 		if g.R.Intn(6) == 0 {
 			args.Redir = "/after-2fa"
 		}
-		r = m.HTTP(b, kind, args, nil)
+		r = m.HTTP(b, kind, args, g.fault())
 		g.harvest(tgt, r)
 	case "smssetup":
 		args := Args{Phone: pick(g.R, phones)}
 		if g.R.Intn(8) == 0 {
 			args.Phone = ""
 		}
-		r = m.HTTP(b, "smssetup", args, nil)
+		r = m.HTTP(b, "smssetup", args, g.fault())
 	case "smsconfirm", "smsremove", "smsvalidate":
 		o := g.owner(b)
 		tgt := o
@@ -502,7 +513,7 @@ func (g *Gen) Step() {
 		default:
 			args.Code = g.smsCodeFor(b)
 		}
-		r = m.HTTP(b, kind, args, nil)
+		r = m.HTTP(b, kind, args, g.fault())
 		g.harvest(tgt, r)
 	case "vstart", "vend":
 		o := g.owner(b)
@@ -519,16 +530,16 @@ func (g *Gen) Step() {
 				args.Token = "Zm9yZ2Vk"
 			}
 		}
-		r = m.HTTP(b, kind, args, nil)
+		r = m.HTTP(b, kind, args, g.fault())
 		g.harvest(o, r)
 	case "prot":
 		args := Args{Reqs: g.R.Intn(4), Fail: g.R.Intn(3), MP: g.R.Intn(2), Path: pick(g.R, []string{"/x", "/a/b", "/"})}
 		if g.R.Intn(2) == 0 {
 			args.RawQuery = pick(g.R, []string{"a=1", "a=1&b=%20c", "q=%2F"})
 		}
-		r = m.HTTP(b, "prot", args, nil)
+		r = m.HTTP(b, "prot", args, g.fault())
 	case "open", "lockmw", "confirmmw", "rootmw":
-		r = m.HTTP(b, kind, Args{}, nil)
+		r = m.HTTP(b, kind, Args{}, g.fault())
 	case "keepalive":
 		// a browser that keeps using the site: every gap is below the idle limit
 		E := m.Cfg.ExpireAfter
